@@ -16,6 +16,7 @@ layout keys (all optional except bits/events):
   offsets   'header' (default) | 'text' (3.x: HEADER data offsets 0, TEXT carries them)
   end       'last' (default) | 'onepast'
   pad       bytes of padding between segments (default 0)
+  offset_format  how the offset keywords of TEXT are written in their 8-column fields: 'zero' (00001234), 'left' ('1234    '), 'right' ('    1234')
   pad_before  {segment name: extra bytes of padding in front of that segment} (e.g. {'data': 10**7}: offsets filling all 8 HEADER columns)
   delim     default '/'
   extra     ordered list of (keyword, value) added to the primary TEXT
@@ -66,11 +67,27 @@ def expected_events(layout):
     return [[int(v) for v in row] for row in layout['events']]
 
 
+_STYLE = ['zero']
+
+
 def _num(n, width=8):
+    """offset value in a fixed-width field: zero-padded (default), blank-padded on the right ('left') or on the left ('right')"""
+    if _STYLE[0] == 'left':
+        return '%-*d' % (width, n)
+    if _STYLE[0] == 'right':
+        return '%*d' % (width, n)
     return ('%0*d' % (width, n))
 
 
 def build(layout):
+    _STYLE[0] = layout.get('offset_format', 'zero')
+    try:
+        return _build(layout)
+    finally:
+        _STYLE[0] = 'zero'
+
+
+def _build(layout):
     version = layout.get('version', 'FCS3.0')
     dt = layout.get('datatype', 'I')
     bits = list(layout['bits'])
